@@ -239,7 +239,7 @@ class Histogram1D(ObjectWithBinning, HistogramBase):
         underflow = np.nan
         overflow = np.nan
         keep_missed = False
-        if isinstance(index, int):
+        if isinstance(index, (int, np.integer)):
             return self.bins[index], self.frequencies[index]
         if isinstance(index, np.ndarray):
             if index.dtype == bool:
